@@ -56,7 +56,13 @@ def main():
             keys = re.findall(r"key=(\S+)", r.stdout)
             results[c] = {"exit": r.returncode, "violation_keys": keys[:12], "n_keys": len(keys)}
             print("%s %s: exit %d, %d violation key(s)%s" % (sid, c, r.returncode, len(keys), (": " + ", ".join(keys[:4])) if keys else ""))
-        json.dump(results, open(os.path.join(d, "selftest_result.json"), "w"), indent=1)
+        merged = {}
+        try:
+            merged = json.load(open(os.path.join(d, "selftest_result.json")))
+        except Exception:
+            pass
+        merged.update(results)
+        json.dump(merged, open(os.path.join(d, "selftest_result.json"), "w"), indent=1)
     finally:
         sh(["git", "-C", "/repo", "worktree", "remove", "--force", SCRATCH])
         shutil.rmtree(SCRATCH, ignore_errors=True)
